@@ -32,7 +32,14 @@ class Facts(Roles):
         return out
 
     def tests(self) -> List[str]:
-        return [str(self.at(s, s.test)) for s in self.stmts if isinstance(s, (ast.If, ast.While))]
+        out = []
+        for s in self.stmts:
+            if isinstance(s, ast.If):
+                out.append(str(self.at(s, s.test)))
+            elif isinstance(s, ast.While):
+                # a loop test is evaluated with the loop-carried names as themselves (environment of the loop body)
+                out.append(str(self.at(s.body[0], s.test)) if s.body else str(self.at(s, s.test)))
+        return out
 
     def iters(self) -> List[str]:
         return [str(self.at(s, s.iter)) for s in self.stmts if isinstance(s, ast.For)]
